@@ -35,7 +35,8 @@ ANCHOR_FILES = [
 RULE = (
     "geometry cases: seeded matrix shape class{square even/odd, tall, wide, mixed parity, tiny 6..9} x scan-angle class{0,90,180,270,random "
     "in [0,360), per-image different angles} x pad class{0, 0.1, 0.25, 0.5, random 0..0.5}, stacks of 2..4 images, KDE sigma 0.3..2, every case "
-    "preprocessed with 1, 2, 3 and 4 knots; fixed-point cases: identical stacks of 2..4 x upsample_factor{1,2,3,4,5,7,8,16} x knots{1..4} x "
+    "preprocessed with 1, 2, 3 and 4 knots and followed by a history on the same object (3..5 of: warp_image with upsample_factor 2/3, "
+    "generate_corrected_image, plain warp_image, repeated transform_coordinates) with closed form, weights and previously returned arrays re-checked after every step; fixed-point cases: identical stacks of 2..4 x upsample_factor{1,2,3,4,5,7,8,16} x knots{1..4} x "
     "angle class x image family{uniform noise, zero-mean noise, blobs+noise, band-limited}. non-trivial = rows != cols or angle not a "
     "multiple of 90 degrees; distinct = (kind, shape class, angle class, pad class | upsample factor, knots, family)"
 )
@@ -56,6 +57,7 @@ REQUIRED_COUNTERS = [
     "eval:coords_differ_between_knot_counts",
     "eval:weight_sum_not_pixel_count",
     "eval:fixed_point_knots_moved",
+    "eval:coords_not_closed_form_after_history",
 ]
 
 SHAPES = ["sq_even", "sq_odd", "tall", "wide", "mixed", "tiny"]
@@ -71,17 +73,24 @@ TOL_FIXED = 1e-2
 
 
 def plan(tier, seed):
-    specs = []
-    reps = 2 if tier == "quick" else 100
+    geom, fixed = [], []
+    reps = 2 if tier == "quick" else 60
     for rep in range(reps):
         for shp, ang, pad in itertools.product(SHAPES, ANGLES, PADS):
-            specs.append({"kind": "geom", "shape": shp, "angle": ang, "pad": pad})
-    reps = 3 if tier == "quick" else 100
+            geom.append({"kind": "geom", "shape": shp, "angle": ang, "pad": pad})
+    reps = 3 if tier == "quick" else 60
     k = 0
     for rep in range(reps):
         for up, K, ang in itertools.product(UPS, [1, 2, 3, 4], ANGLES[:5]):
             k += 1
-            specs.append({"kind": "fixed", "up": up, "knots": K, "angle": ang, "shape": SHAPES[(k + rep) % len(SHAPES)], "pad": PADS[(k // 2 + rep) % len(PADS)], "family": FAMILIES[(k // 3 + rep) % len(FAMILIES)]})
+            fixed.append({"kind": "fixed", "up": up, "knots": K, "angle": ang, "shape": SHAPES[(k + rep) % len(SHAPES)], "pad": PADS[(k // 2 + rep) % len(PADS)], "family": FAMILIES[(k // 3 + rep) % len(FAMILIES)]})
+    # interleave the two kinds so that a time-budget cut on a loaded machine trims both evenly
+    specs = []
+    for i in range(max(len(geom), len(fixed))):
+        if i < len(geom):
+            specs.append(geom[i])
+        if i < len(fixed):
+            specs.append(fixed[i])
     return specs
 
 
@@ -213,6 +222,64 @@ def _weights_checks(ctx, w, shape, canvas, angle, sigma, xa_e, ya_e, common, wha
     ctx.close(cross - exp_cross, 1e-5 * (Vr + Vc) + 1e-5, "weight_cross_moment", lambda: "%s: cov(row,col) of the weight map %.6f expected %.6f (shape %s angle %.3f)" % (what, cross, exp_cross, shape, angle), stage=what, **common)
 
 
+def _recheck_geometry(ctx, dc, shape, canvas, angles, common, returned, after):
+    """The undrifted knots are unchanged, so at any later time the same object must still give the closed form, the same
+    values as before, and arrays it handed out earlier must not have been modified behind the caller's back."""
+    for i in range(len(angles)):
+        xa_e, ya_e = T.scan_geometry(shape, canvas, angles[i])
+        xr, yr = dc.interpolator[i].transform_coordinates(dc.knots[i])
+        xa, ya = np.array(xr, dtype=np.float64, copy=True), np.array(yr, dtype=np.float64, copy=True)
+        if xa.shape != tuple(shape) or ya.shape != tuple(shape):
+            ctx.check(False, "coords_bad_shape", "coords shape %s/%s for image %s after %s" % (xa.shape, ya.shape, shape, after), stage="after:" + after[-1], **common)
+            continue
+
+        def detail(i=i, xa=xa, ya=ya, xa_e=xa_e, ya_e=ya_e):
+            p = np.unravel_index(np.argmax(np.abs(xa - xa_e) + np.abs(ya - ya_e)), xa.shape)
+            return "after %s on the same object: image %d shape %s angle %.4f knots %d: pixel %s -> (%.6f, %.6f), closed form (%.6f, %.6f)" % (after, i, shape, angles[i], common["knots"], tuple(int(v) for v in p), xa[p], ya[p], xa_e[p], ya_e[p])
+
+        ctx.close(max(np.abs(xa - xa_e).max(), np.abs(ya - ya_e).max()), TOL_COORD, "coords_not_closed_form_after_history", detail, stage="after:" + after[-1], **common)
+        returned.append((i, "after " + after[-1], xr, yr, xa, ya))
+    worst, who = 0.0, None
+    for i, when, xr, yr, xs, ys in returned:
+        try:
+            d = max(float(np.abs(np.asarray(xr, dtype=np.float64) - xs).max()), float(np.abs(np.asarray(yr, dtype=np.float64) - ys).max()))
+        except Exception:  # noqa: BLE001  (shape changed in place)
+            d = float("inf")
+        if d > worst:
+            worst, who = d, (i, when)
+    ctx.close(worst, 0.0, "returned_coords_changed_by_later_call", lambda: "coordinate arrays returned for image %s were modified in place by later calls %s" % (who, after), stage="after:" + after[-1], **common)
+
+
+def _object_history(ctx, rng, dc, shape, canvas, angles, sigma, common, returned):
+    """History on one DriftCorrection / its interpolators with unchanged (undrifted) knots: upsampled warps, corrected-image
+    generation, plain warps and repeated coordinate evaluations in random order; geometry and weights re-checked after each."""
+    n = len(angles)
+    ops = ["warp_upsampled", "generate_corrected_image", "warp_plain", "coords_again", "warp_upsampled"]
+    order = ["warp_upsampled"] + [ops[k] for k in rng.permutation(len(ops))][: int(rng.integers(2, 5))]
+    done = []
+    for op in order:
+        done.append(op)
+        if op in ("warp_upsampled", "warp_plain"):
+            for i in ([int(rng.integers(n))] if rng.random() < 0.5 else range(n)):
+                xa_e, ya_e = T.scan_geometry(shape, canvas, angles[i])
+                s2 = float(rng.uniform(0.3, 0.7))
+                up2 = 1 if op == "warp_plain" else int(rng.choice([2, 3]))
+                kw = {} if op == "warp_plain" and rng.random() < 0.5 else {"kde_sigma": s2, "upsample_factor": up2}
+                _, w2 = dc.interpolator[i].warp_image(dc.images[i].array, dc.knots[i], **kw)
+                _weights_checks(ctx, w2, shape, canvas, angles[i], s2 if kw else sigma, xa_e, ya_e, dict(common), op + ":" + ">".join(done[:-1][-2:]), scale=float(up2))
+        elif op == "generate_corrected_image":
+            try:
+                with warnings.catch_warnings():
+                    warnings.simplefilter("ignore")
+                    dc.generate_corrected_image(upsample_factor=int(rng.choice([2, 2, 3, 1])), show_image=False, output_original_shape=bool(rng.random() < 0.5), fourier_filter=bool(rng.random() < 0.5), mask_output=bool(rng.random() < 0.5))
+            except Exception:  # noqa: BLE001  (the merged image itself is not part of this property; only its side effects on the geometry are)
+                ctx.count("observed:generate_corrected_image_raised")
+        elif op == "coords_again":
+            pass
+        _recheck_geometry(ctx, dc, shape, canvas, angles, common, returned, list(done))
+    ctx.count("history_ops", len(done))
+
+
 def _run_geom(spec, idx, ctx):
     D = ctx.state["D"]
     rng = ctx.rng(idx)
@@ -241,6 +308,7 @@ def _run_geom(spec, idx, ctx):
         if canvas != canvas0:
             ctx.count("observed:canvas_depends_on_knot_count")  # not judged by itself: the coordinate comparison below decides
         ctx.check(len(dc.knots) == n and all(np.asarray(k).shape == (2, shape[0], K) for k in dc.knots), "knots_bad_shape", lambda: "knots shapes %s expected (2,%d,%d)" % ([np.asarray(k).shape for k in dc.knots], shape[0], K), **common)
+        returned = []  # (image, when, returned xa, returned ya, snapshot xa, snapshot ya): values handed out must stay what they were
         for i in range(n):
             xa_e, ya_e = T.scan_geometry(shape, canvas, angles[i])
             # initial knot placement: the K control points of row r lie on the scan line at evenly spaced columns
@@ -250,8 +318,9 @@ def _run_geom(spec, idx, ctx):
             ke_y = np.stack([np.interp(cols, np.arange(shape[1]), ya_e[r]) for r in range(shape[0])]) if shape[1] > 1 else ya_e[:, :1]
             if kn.shape == (2, shape[0], K):
                 ctx.close(max(np.abs(kn[0] - ke_x).max(), np.abs(kn[1] - ke_y).max()), TOL_COORD, "initial_knots_not_closed_form", lambda: "image %d shape %s angle %.4f pad %.3f knots %d canvas %s" % (i, shape, angles[i], pad, K, canvas), **common)
-            xa, ya = dc.interpolator[i].transform_coordinates(dc.knots[i])
-            xa, ya = np.asarray(xa, dtype=np.float64), np.asarray(ya, dtype=np.float64)
+            xa_ret, ya_ret = dc.interpolator[i].transform_coordinates(dc.knots[i])
+            xa, ya = np.array(xa_ret, dtype=np.float64, copy=True), np.array(ya_ret, dtype=np.float64, copy=True)  # snapshots
+            returned.append((i, "first call", xa_ret, ya_ret, xa, ya))
             okshape = ctx.check(xa.shape == tuple(shape) and ya.shape == tuple(shape), "coords_bad_shape", lambda: "coords shape %s/%s for image %s" % (xa.shape, ya.shape, shape), **common)
             if not okshape:
                 continue
@@ -274,11 +343,7 @@ def _run_geom(spec, idx, ctx):
             # weight map of the initial resampling
             wcommon = dict(common)
             _weights_checks(ctx, dc.weights_warped.array[i], shape, canvas, angles[i], sigma, xa_e, ya_e, wcommon, "preprocess")
-            if K == 1 or i == 0:
-                s2 = float(rng.uniform(0.3, 0.7))
-                up2 = int(rng.choice([1, 2, 3]))
-                _, w2 = dc.interpolator[i].warp_image(dc.images[i].array, dc.knots[i], kde_sigma=s2, upsample_factor=up2)
-                _weights_checks(ctx, w2, shape, canvas, angles[i], s2, xa_e, ya_e, wcommon, "warp_image_upsampled", scale=float(up2))
+        _object_history(ctx, rng, dc, shape, canvas, angles, sigma, common, returned)
     nontriv = (not square) or any(angle_is_nontrivial(a) for a in angles)
     ctx.nontrivial(("geom", spec["shape"], spec["angle"], spec["pad"]), nontriv)
     ctx.observe(shape=list(shape), angles=angles, pad=pad, canvas=list(canvas0), sigma=sigma, n=n)
@@ -318,6 +383,26 @@ def _run_fixed(spec, idx, ctx):
         ctx.close(worst, TOL_FIXED, "fixed_point_measured_shift_nonzero", lambda: "identical stack n=%d shape %s up %d: measured relative shifts %s" % (n, shape, up, [s.tolist() for s in cc_log]), **common)
     else:
         ctx.count("fixed_point_shift_hook_not_reached")
+    # history on the same object: corrected-image generation (upsampled warps), then a second alignment
+    try:
+        with warnings.catch_warnings():
+            warnings.simplefilter("ignore")
+            dc.generate_corrected_image(upsample_factor=int(rng.choice([2, 3])), show_image=False)
+    except Exception:  # noqa: BLE001
+        ctx.count("observed:generate_corrected_image_raised")
+    with warnings.catch_warnings():
+        warnings.simplefilter("ignore")
+        dc.align_translation(upsample_factor=up, show_merged=False, show_images=False, **kw)
+    after2 = [np.asarray(k, dtype=np.float64) for k in dc.knots]
+    moved2 = max(float(np.max(np.abs(a - b))) if np.all(np.isfinite(a)) else float("nan") for a, b in zip(after2, before))
+    ctx.close(moved2, TOL_FIXED, "fixed_point_knots_moved", lambda: "identical stack n=%d shape %s knots %d up %d: after generate_corrected_image + second align_translation the knots moved by %.4g px" % (n, shape, K, up, moved2), stage="second_alignment", **common)
+    canvas = tuple(int(v) for v in dc.shape[1:])
+    xa_e, ya_e = T.scan_geometry(shape, canvas, angle)
+    for i in range(n):
+        xr, yr = dc.interpolator[i].transform_coordinates(dc.knots[i])
+        xr, yr = np.asarray(xr, dtype=np.float64), np.asarray(yr, dtype=np.float64)
+        if xr.shape == tuple(shape):
+            ctx.close(max(np.abs(xr - xa_e).max(), np.abs(yr - ya_e).max()), 2 * TOL_FIXED, "fixed_point_coords_left_closed_form", lambda: "identical stack shape %s angle %.4f knots %d up %d: coordinates of image %d after align/generate/align differ from the closed form" % (shape, angle, K, up, i), **common)
     ctx.nontrivial(("fixed", spec["shape"], spec["angle"], up, K, spec["family"]), shape[0] != shape[1] or angle_is_nontrivial(angle))
     ctx.observe(shape=list(shape), angle=angle, pad=pad, n=n, sigma=sigma, knots_moved=moved, measured_shifts=[s.tolist() for s in (cc_log or [])], kwargs=kw)
 
